@@ -731,13 +731,17 @@ UserActs == {"user.approve", "user.pause", "user.resume", "user.disable", "user.
              "user.release3", "user.rollback", "user.scale"} \cup JumpActs
 EnvActs  == {"env.observe", "env.update", "env.ready", "env.unready", "env.scale"}
 
+ModelledPartition(p, a) ==
+  /\ p.wl.exists => (p.wl.kind \in PartitionKinds /\ p.wl.style = "partition")
+  /\ a \in {"ro", "br", "tick"} \cup EnvActs \cup UserActs
+\* Deployment, canary style: the controllers, time and the user (the simulated native Deployment / ReplicaSet
+\* controllers of the harness are environment and not modelled)
+ModelledCanary(p, a) ==
+  /\ p.wl.exists /\ p.wl.kind = "Deployment" /\ p.wl.style = "canary"
+  /\ a \in {"ro", "br", "tick"} \cup UserActs /\ p.wl.cd.n <= 1
 Modelled(p, a) ==
-  \/ /\ p.wl.exists => (p.wl.kind \in PartitionKinds /\ p.wl.style = "partition")
-     /\ a \in {"ro", "br", "tick"} \cup EnvActs \cup UserActs
-  \* Deployment, canary style: the controllers, time and the user (the simulated native Deployment / ReplicaSet
-  \* controllers of the harness are environment and not modelled)
-  \/ /\ p.wl.exists /\ p.wl.kind = "Deployment" /\ p.wl.style = "canary"
-     /\ a \in {"ro", "br", "tick"} \cup UserActs /\ p.wl.cd.n <= 1
+  /\ ~p.tr.used        \* scenarios with a stand-alone TrafficRouting object are property-checked only
+  /\ (ModelledPartition(p, a) \/ ModelledCanary(p, a))
 
 \* successor set of one action (singletons for the deterministic controller reconciles)
 \* Deliberate deviation: whether a reconcile that changes nothing but status MESSAGES writes the status is not modelled
